@@ -156,8 +156,21 @@ def fam_split(ctx, rng):
         check_pieces(ctx, 'split:pline3', parts, c, desc, pl)
     elif which == 'arc3':
         c = Bd.make(rng, 'Arc3D')
+        if rng.random() < 0.5:
+            # a wrap-around arc cut twice: the plane passes through two points of the arc (often one on each side of angle 0)
+            a1 = rng.uniform(math.pi, 2 * math.pi - 0.2); a2 = rng.uniform(0.2, a1 - 0.3)
+            c = Arc3D(c.plane, c.radius, a1, a2)
+            q1, q2 = c.point_at(rng.uniform(0.05, 0.95)), c.point_at(rng.uniform(0.05, 0.95))
+            u = q2 - q1
+            if u.magnitude > 1e-3 * c.radius:
+                nrm = u.cross(c.plane.n).normalize()
+                t = rng.uniform(-0.5, 0.5)
+                nrm = V3((nrm.x + t * c.plane.n.x, nrm.y + t * c.plane.n.y, nrm.z + t * c.plane.n.z))
+                pl0 = Plane(nrm, q1)
         tgt = c.point_at(rng.uniform(0.1, 0.9))
         pl = Plane(V3(G.rvec3(rng, 1)), P3((G.dy(tgt.x), G.dy(tgt.y), G.dy(tgt.z))))
+        if 'pl0' in dir():
+            pl = pl0
         parts = c.split_with_plane(pl)
         desc = {'arc': c.to_dict(), 'plane': pl.to_dict()}
         inv = 'inverted' if c.a2 < c.a1 else ('circle' if c.is_circle else 'plain')
@@ -167,6 +180,13 @@ def fam_split(ctx, rng):
         c = Bd.make(rng, 'Arc2D')
         tgt = c.point_at(rng.uniform(0.1, 0.9))
         L = Ray2D(P2((G.dy(tgt.x), G.dy(tgt.y))), V2(G.rvec2(rng, 3)))
+        if rng.random() < 0.5:
+            # a wrap-around arc cut twice by the line through two of its points
+            a1 = rng.uniform(math.pi, 2 * math.pi - 0.2); a2 = rng.uniform(0.2, a1 - 0.3)
+            c = Arc2D(c.c, c.r, a1, a2)
+            q1, q2 = c.point_at(rng.uniform(0.05, 0.95)), c.point_at(rng.uniform(0.05, 0.95))
+            if q1.distance_to_point(q2) > 1e-3 * c.r:
+                L = Ray2D(q1, q2 - q1)
         parts = c.split_line_infinite(L)
         desc = {'arc': c.to_dict(), 'line': L.to_dict()}
         inv = 'inverted' if c.a2 < c.a1 else ('circle' if c.is_circle else 'plain')
@@ -208,7 +228,7 @@ def check_arc_pieces(ctx, kind, parts, c, desc):
             ctx.violation(kind + ':gap', 'consecutive arc pieces do not meet', desc); return
 
 
-FAMILIES = [(fam_point_at, 60), (fam_evenly, 60), (fam_subdivide, 40), (fam_split, 50)]
+FAMILIES = [(fam_point_at, 60), (fam_evenly, 60), (fam_subdivide, 40), (fam_split, 80)]
 
 
 def explore(ctx):
@@ -251,3 +271,25 @@ def correspond(ctx):
         if ok is not True:
             ctx.corr_fail.append({'function': nm, 'input': 'n = 1..500', 'result': 'PrimFloat loop model and implementation disagree on a point count'
                                   if ok is False else 'model evaluation failed'})
+    # the generated (exact arithmetic, fuel-bounded) while loop against the implementation: same number of points, same points to 1e-9
+    rng = ctx.rng
+    cases, meta = [], []
+    from ..core import q
+    for _ in range(ctx.n(60, 300)):
+        n = rng.choice([1, 2, 3, 7, 9, 11, 20, 21, 25, rng.randint(1, 120)])
+        p, v = G.rpt2(rng, 50), G.rvec2(rng, 20)
+        if v[0] == 0 and v[1] == 0:
+            continue
+        got = LineSegment2D(P2(p), V2(v)).subdivide_evenly(n)
+        cases.append('v2l_close (LineSegment2D_subdivide_evenly 200 (mkLR2 %s %s) %d) %s' % (
+            core.v2(p), core.v2(v), n, core.coq_list([core.v2((g.x, g.y)) for g in got])))
+        meta.append(('LineSegment2D.subdivide_evenly', p, v, n))
+    pre = ('Definition closeq (a b : Q) : bool := Qle_bool (Qabs (a - b)) (1 # 100000000).\n'
+           'Definition v2l_close (a b : list V2) : bool := Nat.eqb (length a) (length b) && '
+           'forallb (fun p => closeq (v2x (fst p)) (v2x (snd p)) && closeq (v2y (fst p)) (v2y (snd p))) (combine a b).\n')
+    res = core.run_cases('C17_corr_q', ['Base', 'QGeom', 'G0_vec', 'G8_curve', 'G11_sub'], pre, cases)
+    ctx.corr_cases += len(cases)
+    for ok, m in zip(res, meta):
+        if ok is not True:
+            ctx.corr_fail.append({'function': m[0], 'input': repr(m[1:]),
+                                  'result': 'generated loop and implementation differ' if ok is False else 'model evaluation failed'})
